@@ -155,6 +155,12 @@ func init() {
 				"Membership": "s.members.get()", "Session": "buf",
 			})
 		}),
+		// membership.get hands out a deep copy: a snapshot record never shares maps with the live membership
+		c08Bool("src_membership_get_copies", func() bool {
+			p := rsm()
+			fd := p.Func("membership", "get")
+			return c08Print(p, fd.Body) == "{ return deepCopyMembership(m.members) }"
+		}),
 		// StateMachine.apply restores membership, index and term from the snapshot record
 		c08Bool("src_apply_restores", func() bool {
 			p := rsm()
